@@ -261,7 +261,7 @@ def extract(tree):
         raise ExtractError("only %d arithmetic opcodes recognised in vm.c" % len(ops))
     g["vmOps"] = ops
     vb = _norm(_macro(vm, "_vm_binop"))
-    if 'stack[A] = janet_binop_call(#op, "r" #op, op1, op2);' not in vb:
+    if 'janet_binop_call(#op, "r" #op, op1, op2);' not in vb or "stack[A] = wrap(x1 op x2);" not in vb:
         raise ExtractError("_vm_binop: method naming changed")
     vb = _norm(_macro(vm, "_vm_bitop"))
     if 'janet_binop_call(#op, "r" #op, op1, op2)' not in vb or "if (!rangecheck(y1))" not in vb or "if (!janet_checkintrange(y2))" not in vb \
